@@ -137,6 +137,31 @@ func (r *rewriter) isChan(e ast.Expr) bool {
 	return false
 }
 
+// foreignChan: the expression is a call into a package outside the module under test, so the channel
+// it yields is a real one.
+func (r *rewriter) foreignChan(e ast.Expr) bool {
+	call, ok := unparen(e).(*ast.CallExpr)
+	if !ok {
+		return false
+	}
+	var id *ast.Ident
+	switch f := call.Fun.(type) {
+	case *ast.SelectorExpr:
+		id = f.Sel
+	case *ast.Ident:
+		id = f
+	}
+	if id == nil {
+		return false
+	}
+	o := r.info.Uses[id]
+	fn, ok := o.(*types.Func)
+	if !ok || fn.Pkg() == nil {
+		return false
+	}
+	return !strings.HasPrefix(fn.Pkg().Path(), "github.com/Trisia/randomness") && !strings.HasPrefix(fn.Pkg().Path(), "verif/")
+}
+
 func (r *rewriter) typeKnown(e ast.Expr) bool {
 	tv, ok := r.info.Types[e]
 	return ok && tv.Type != nil && tv.Type != types.Typ[types.Invalid]
@@ -394,6 +419,12 @@ func (r *rewriter) expr(e ast.Expr) ast.Expr {
 	case *ast.ChanType:
 		return r.chanType(x)
 	case *ast.UnaryExpr:
+		if x.Op == token.ARROW && r.foreignChan(x.X) {
+			// a channel produced by a package outside the instrumented set (time.After, ctx.Done): a real receive
+			r.count("recv on a foreign channel (left as is)")
+			x.X = r.expr(x.X)
+			return x
+		}
 		if x.Op == token.ARROW {
 			r.count("recv")
 			return &ast.CallExpr{Fun: &ast.SelectorExpr{X: r.expr(x.X), Sel: ast.NewIdent("Recv1")}}
